@@ -436,7 +436,7 @@ fn command_class(c: &[Vec<u8>]) -> Option<&'static str> {
             if o.iter().any(|x| x == b"GET" || x == b"KEEPTTL") { Some("lua-set-options") }
             else if o.iter().any(|x| x == b"NX") && o.iter().any(|x| x == b"XX") { Some("lua-set-options") } else { None }
         }
-        b"EXPIRE" => Some("lua-expire-nonpositive"),
+        b"EXPIRE" => match c.get(2).and_then(|a| std::str::from_utf8(a).ok()).and_then(|t| t.parse::<i64>().ok()) { Some(n) if n <= 0 => Some("lua-expire-nonpositive"), _ => None },
         b"TTL" => Some("lua-ttl-reply"),
         b"RENAMENX" => Some("lua-renamenx-is-rename"),
         b"PING" => Some("lua-ping-arity"),
@@ -472,6 +472,8 @@ pub fn judge(c: &Case, outs: &[Vec<Tok>]) -> Vec<String> {
                     // the property: the script answers what the direct command answers
                     let want = strip(&std_view(&if sorted { sort_bulks(d.clone()) } else { d.clone() }));
                     let ss = strip(&s);
+                    // inputs on which the two paths are known to act differently may diverge silently
+                    if let Some(cl) = command_class(&dargs) { if STATE_CLASSES.contains(&cl) && state_class.is_none() { state_class = Some(cl); } }
                     if want != ss {
                         let bin_arg = dargs.iter().skip(1).any(|a| std::str::from_utf8(a).is_err());
                         // what this implementation's conversions make of the direct reply (incl. table.sort)
